@@ -160,8 +160,8 @@ PlacementsThorough == PlacementsQuick \cup
                        << <<0, 0>>, <<0, 0>>, <<0, 0>>, <<0, 0>> >>,
                        << <<12, 1>>, <<12, -1>>, <<5, 1>>, <<23, 0>> >>,
                        << <<1, 0>>, <<0, -1>>, <<11, 0>>, <<12, 1>> >>}
-SubsQuick    == {<<1, -1, 0, 1>>, <<-1, 1, -1, 0>>}
-SubsThorough == SubsQuick \cup {<<0, 0, 1, -1>>, <<-1, -1, 1, 1>>}
+SubsQuick    == {<<1, -1, 0, 1>>}
+SubsThorough == SubsQuick \cup {<<-1, 1, -1, 0>>, <<0, 0, 1, -1>>, <<-1, -1, 1, 1>>}
 TurnsQuick    == {-3, 1}
 TurnsThorough == {-3, -1, 1, 2}
 =============================================================================
